@@ -18,7 +18,8 @@ def schema_text(i, faults, uni=False):
             lines += ['  """', UNI_WS[i % 3], '  """']
         lines.append("  type Bad%d { x: Missing%d }" % (i, i))
     if "ext" in faults:
-        lines.append("extend type Nope%d { a: Int }" % i)
+        # a fault of the extension-resolution stage: an orphan extension, or (every second run) a built-in scalar declared again
+        lines.append("scalar ID" if uni else "extend type Nope%d { a: Int }" % i)
     if "parse" in faults:
         lines.append("   type {")
     return "\n".join(lines) + "\n"
